@@ -29,6 +29,7 @@ package auditlog
 // with the hash contract above this is what makes an altered, inserted, dropped, duplicated or reordered entry fail:
 // any of these changes some entry's content or predecessor, hence (SHA-512 assumed collision free) a hash that is compared.
 //@ func (*Validator).ValidateEntry
+//@ property C26 C27
 //@ mode nosafety
 //@ requires entry != nil
 //@ assigns v.PrevHash v.HashBuffer v.Index
@@ -45,3 +46,11 @@ package auditlog
 //@ func (*Entry).Verify
 //@ mode nosafety
 //@ ensures[C27:verify-needs-hash-and-signature] result ==> bytes.Equal(result_of(e.CalculateHash, 0), e.Hash) && called(verifier.Verify) && result_of(verifier.Verify, 0)
+
+// Signing computes the hash and the signature of an entry and leaves everything else of it alone (used where an entry is
+// signed and then written: what was put into the entry before Sign is what the sink receives).
+//@ func (*Entry).Sign
+//@ property C26 C27
+//@ mode nosafety
+//@ frame
+//@ assigns e.Hash e.SignatureEd25519
